@@ -275,8 +275,30 @@ func checkC05(r *Run) {
 	}
 
 	// (4) routing
+	// "the frame received from the reader": the value received on the local reply channel in the owner's select,
+	// and — when the reply branch is extracted — the helper parameter bound to it at every call site
+	replyVals := map[ssa.Value]bool{}
+	for i := range mainSel.States {
+		if v := selRecvValue(mainSel, i); v != nil && strings.HasPrefix(chanProv(mainSel.States[i].Chan, 0), "local:") {
+			replyVals[v] = true
+		}
+	}
+	for _, g := range scope[1:] {
+		for i, prm := range g.Params {
+			all, n := true, 0
+			for _, c := range findCalls(owner, fnName(g)) {
+				n++
+				if i >= len(c.Call.Args) || !replyVals[c.Call.Args[i]] {
+					all = false
+				}
+			}
+			if all && n > 0 {
+				replyVals[prm] = true
+			}
+		}
+	}
 	nRoute := 0
-	eachInstr(owner, func(in ssa.Instruction) {
+	eachScope(func(_ *ssa.Function, in ssa.Instruction) {
 		sd, ok := in.(*ssa.Send)
 		if !ok || chanProv(sd.Chan, 0) != "field:fcallRequest.response" {
 			return
@@ -299,16 +321,11 @@ func checkC05(r *Run) {
 		r.Check(okLookup && okKey, "routing", "handle: reply goes to the request registered under the reply's own tag", sd.Pos(),
 			"the reply is delivered to a request that was not looked up with the reply's tag (e.g. the most recently sent one): calls receive each other's replies")
 		// the reply value is the one received from the reader
-		fromReader := false
-		for i := range mainSel.States {
-			if selRecvValue(mainSel, i) == sd.X && strings.HasPrefix(chanProv(mainSel.States[i].Chan, 0), "local:") {
-				fromReader = true
-			}
-		}
+		fromReader := replyVals[sd.X]
 		r.Check(fromReader, "routing", "handle: the value delivered is the frame received from the reader", sd.Pos(), "something other than the received reply is delivered")
 		// deleted before delivery
 		del := false
-		eachInstr(owner, func(in2 ssa.Instruction) {
+		eachInstr(sd.Parent(), func(in2 ssa.Instruction) {
 			if c, ok := in2.(*ssa.Call); ok {
 				if b, ok := c.Call.Value.(*ssa.Builtin); ok && b.Name() == "delete" && isOut(c.Call.Args[0]) && instrDominates(c, sd) {
 					if o, ok := fieldOfLocalCopy(c.Call.Args[1], "Tag"); ok && o == sd.X {
@@ -335,9 +352,12 @@ func checkC05(r *Run) {
 		o, okf := fieldOfLocalCopy(c.Call.Args[1], "Tag")
 		okKind := false
 		if okf {
+			if replyVals[o] {
+				okKind = true // the received reply
+			}
 			for i := range mainSel.States {
 				if selRecvValue(mainSel, i) == o {
-					okKind = true // the received reply
+					okKind = true
 				}
 			}
 			if fc, ok := o.(*ssa.Call); ok && calleeName(&fc.Call) == "p9p.newFcall" {
